@@ -35,6 +35,7 @@ CONFIGS = [
     ("Isobaric", dict(ens="Isobaric", atoms="A3", table=[["c", "C_iso"], ["d", "D_ball"]], max_cycles=3)),
     ("Isobaric", dict(ens="Isobaric", atoms="T3", table=[["c", "C_aniso"], ["s", "C_shape"]], max_cycles=2)),
     ("Isotension", dict(ens="Isotension", atoms="T3", table=[["c", "C_aniso"], ["d", "D_box"]], stress=[[0.001, 0.0005, 0], [0.0005, 0.002, 0], [0, 0, 0.001]], max_cycles=3)),
+    ("Isotension", dict(ens="Isotension", atoms="A3", table=[["c", "C_default"], ["d", "D_default"]], max_cycles=2)),  # default (zero) external stress
     ("GrandCanonical", dict(ens="GrandCanonical", atoms="A3", table=[["e", "E_trans"], ["d", "D_ball"]], T=800.0, mu=-0.3, max_cycles=3)),
     ("GrandCanonical", dict(ens="GrandCanonical", atoms="M", table=[["e", "E_transrot"], ["x", "E_transrot*2"]], calc="zero", T=800.0, mu=-0.2, max_cycles=2)),
     ("Canonical", dict(ens="Canonical", atoms="A3", table=[["d", "D_default"]], max_cycles=2)),
@@ -167,6 +168,10 @@ def retune(sim):
                         setattr(op, nm, getattr(op, nm) * f)
         if hasattr(st.criteria, "__dict__"):
             pass
+    st = getattr(sim, "external_stress", None)
+    if isinstance(st, np.ndarray):  # a stress ramp applied in place
+        st[0, 0] -= 0.05
+        st[1, 2] += 0.01
     for nm in ("delta", "min_delta", "max_delta"):
         if hasattr(sim, nm):
             try:
